@@ -13,7 +13,9 @@ import (
 	"strings"
 	"time"
 
+	"github.com/moorara/algo/generic"
 	"github.com/moorara/algo/grammar"
+	"github.com/moorara/algo/hash"
 	"github.com/moorara/algo/lexer"
 	"github.com/moorara/algo/parser"
 	"github.com/moorara/algo/parser/predictive"
@@ -67,6 +69,7 @@ type Oracle struct {
 	Prod      strset
 	AllReach  bool
 	Reduced   bool
+	byHead    map[string][]gx.P // the productions of each head, in the order of G.Prods
 }
 
 func (o *Oracle) nullableStr(body []string) bool {
@@ -97,7 +100,10 @@ func (o *Oracle) FirstStr(body []string) (strset, bool) {
 }
 
 func NewOracle(g gx.G) *Oracle {
-	o := &Oracle{G: g, Nullable: g.Nullable(), Reach: g.Reachable(), Prod: g.Productive()}
+	o := &Oracle{G: g, Nullable: g.Nullable(), Reach: g.Reachable(), Prod: g.Productive(), byHead: map[string][]gx.P{}}
+	for _, p := range g.Prods {
+		o.byHead[p.Head] = append(o.byHead[p.Head], p)
+	}
 	o.AllReach, o.Reduced = true, true
 	for _, n := range g.NonTerms {
 		if !o.Reach[n] {
@@ -191,10 +197,7 @@ func NewOracle(g gx.G) *Oracle {
 // CellCount: number of productions the textbook construction puts into M[A,a] (a == "$": endmarker).
 func (o *Oracle) Cell(A, a string) []string {
 	var ps []string
-	for _, p := range o.G.Prods {
-		if p.Head != A {
-			continue
-		}
+	for _, p := range o.byHead[A] {
 		f, eps := o.FirstStr(p.Body)
 		in := false
 		if a == "$" {
@@ -1791,8 +1794,10 @@ func Exec(c hx.Case) hx.Result {
 				}
 			})
 		}
-		if cmd == "parse" || cmd == "ast" || cmd == "parse0" || cmd == "parsef" || cmd == "astf" {
-			hung = !hx.WithTimeout(5*time.Second, run)
+		if cmd == "parse" || cmd == "ast" || cmd == "parse0" || cmd == "parsef" || cmd == "astf" || len(G.Terms)+len(G.NonTerms) >= 16 {
+			// (grammars with many symbols: a fixpoint or a hash table of the analyses that does not come back ends the case
+			// here, not at the watchdog of the run)
+			hung = !hx.WithTimeout(8*time.Second, run)
 		} else {
 			run()
 		}
@@ -1942,10 +1947,7 @@ func verifyOracle(g gx.G) string {
 // CellProds: the productions of the textbook cell M[A,a] (a == "$": endmarker).
 func (o *Oracle) CellProds(A, a string) []gx.P {
 	var ps []gx.P
-	for _, p := range o.G.Prods {
-		if p.Head != A {
-			continue
-		}
+	for _, p := range o.byHead[A] {
 		f, eps := o.FirstStr(p.Body)
 		in := false
 		if a == "$" {
@@ -3287,6 +3289,237 @@ func Sweep(r *hx.Rand, dim string, n int) (gx.G, []string) {
 	return g, qs
 }
 
+// ---------------------------------------------------------------- names that share a hash bucket
+
+// The grammar and parser packages keep their tables (FIRST by symbol, FOLLOW and the productions by non-terminal, the
+// rows and columns of the parsing table) in quadratic-probing hash tables of 31, then 67, … slots, hashed by
+// grammar.HashSymbol / HashNonTerminal / HashTerminal.  A probe sequence visits (m+1)/2 slots; that a free one is among
+// them rests on the load factor.  SameBucketNames finds, by asking the library's own tables where they put a key, names
+// that all start their probe sequence at ONE slot of an m-slot table: nNT non-terminals and nT terminals.
+//
+//	kind "symbol":      by grammar.HashSymbol (non-terminals and terminals in one table)
+//	kind "nonterminal": the non-terminals by grammar.HashNonTerminal (the terminals are then ordinary names)
+//	kind "terminal":    the terminals by grammar.HashTerminal
+func SameBucketNames(kind string, m, nNT, nT int) (nts, ts []string) {
+	ntSlot := func(name string) int {
+		return startSlot(grammar.HashSymbol, grammar.EqSymbol, m, grammar.Symbol(grammar.NonTerminal(name)))
+	}
+	tSlot := func(name string) int {
+		return startSlot(grammar.HashSymbol, grammar.EqSymbol, m, grammar.Symbol(grammar.Terminal(name)))
+	}
+	switch kind {
+	case "nonterminal":
+		ntSlot = func(name string) int {
+			return startSlot(grammar.HashNonTerminal, grammar.EqNonTerminal, m, grammar.NonTerminal(name))
+		}
+		tSlot = nil
+	case "terminal":
+		tSlot = func(name string) int {
+			return startSlot(grammar.HashTerminal, grammar.EqTerminal, m, grammar.Terminal(name))
+		}
+		ntSlot = nil
+	}
+	byN, byT := make([][]string, m), make([][]string, m)
+	for k := 0; k < 40*m*(nNT+nT+1); k++ {
+		if ntSlot != nil {
+			n := fmt.Sprintf("Q%d", k)
+			byN[ntSlot(n)] = append(byN[ntSlot(n)], n)
+		}
+		if tSlot != nil {
+			t := fmt.Sprintf("q%d", k)
+			byT[tSlot(t)] = append(byT[tSlot(t)], t)
+		}
+		for slot := 0; slot < m; slot++ {
+			if (ntSlot == nil || len(byN[slot]) >= nNT) && (tSlot == nil || len(byT[slot]) >= nT) {
+				if ntSlot != nil {
+					nts = byN[slot][:nNT]
+				} else {
+					nts = numbered("Q", nNT)
+				}
+				if tSlot != nil {
+					ts = byT[slot][:nT]
+				} else {
+					ts = numbered("q", nT)
+				}
+				return nts, ts
+			}
+		}
+	}
+	return numbered("Q", nNT), numbered("q", nT)
+}
+
+// startSlot: where a quadratic-probing table of m slots (as the library builds it) puts the key when it is empty.
+func startSlot[K any](h hash.HashFunc[K], eq generic.EqualFunc[K], m int, key K) int {
+	t := symboltable.NewQuadraticHashTable[K, int](h, eq, func(a, b int) bool { return a == b }, symboltable.HashOpts{InitialCap: m})
+	t.Put(key, 0)
+	if st, ok := symboltable.VerifHashSlots[K, int](t); ok && len(st.Slots) == 1 {
+		return st.Slots[0].Index
+	}
+	return 0
+}
+
+// ChainGrammar: N0 -> t0 N1 | t1, …, N_last -> t1 | ε over the given names (LL(1); terminals beyond the second are only
+// declared).  Listed from the far end (see Sweep).
+func ChainGrammar(ns, ts []string) gx.G {
+	g := gx.G{NonTerms: ns, Terms: ts, Start: ns[0]}
+	t0, t1 := ts[0], ts[len(ts)-1]
+	n := len(ns)
+	if t0 != t1 {
+		g.Prods = append(g.Prods, gx.P{Head: ns[n-1], Body: []string{t1}})
+	}
+	g.Prods = append(g.Prods, gx.P{Head: ns[n-1]})
+	for i := n - 2; i >= 0; i-- {
+		g.Prods = append(g.Prods, gx.P{Head: ns[i], Body: []string{t0, ns[i+1]}})
+		if t0 != t1 {
+			g.Prods = append(g.Prods, gx.P{Head: ns[i], Body: []string{t1}})
+		}
+	}
+	return g
+}
+
+// TreeGrammar: N_i -> t0 N_(2i+1) | t1 N_(2i+2), the non-terminals without children -> ε (LL(1), as deep as log n:
+// the fixpoints and the Model are through in a few passes whatever n is).  Listed from the far end.
+func TreeGrammar(ns, ts []string) gx.G {
+	g := gx.G{NonTerms: ns, Terms: ts, Start: ns[0]}
+	t0, t1 := ts[0], ts[len(ts)-1]
+	n := len(ns)
+	for i := n - 1; i >= 0; i-- {
+		l, r := 2*i+1, 2*i+2
+		if l >= n {
+			g.Prods = append(g.Prods, gx.P{Head: ns[i]})
+			continue
+		}
+		g.Prods = append(g.Prods, gx.P{Head: ns[i], Body: []string{t0, ns[l]}})
+		if r < n && t0 != t1 {
+			g.Prods = append(g.Prods, gx.P{Head: ns[i], Body: []string{t1, ns[r]}})
+		} else if t0 != t1 {
+			g.Prods = append(g.Prods, gx.P{Head: ns[i], Body: []string{t1}})
+		}
+	}
+	return g
+}
+
+// KeywordGrammar: S -> t_i N (one alternative per terminal) | ε, the non-terminals beyond the first two in a chain
+// behind N (LL(1)): a keyword table.
+func KeywordGrammar(ns, ts []string) gx.G {
+	g := gx.G{NonTerms: ns, Terms: ts, Start: ns[0]}
+	tail := ns[0]
+	if len(ns) > 1 {
+		tail = ns[1]
+	}
+	for i, t := range ts {
+		if tail == ns[0] || i%2 == 1 {
+			g.Prods = append(g.Prods, gx.P{Head: ns[0], Body: []string{t}})
+		} else {
+			g.Prods = append(g.Prods, gx.P{Head: ns[0], Body: []string{t, tail}})
+		}
+	}
+	g.Prods = append(g.Prods, gx.P{Head: ns[0]})
+	for i := 1; i < len(ns); i++ {
+		if i+1 < len(ns) {
+			g.Prods = append(g.Prods, gx.P{Head: ns[i], Body: []string{ns[i+1]}})
+		} else {
+			g.Prods = append(g.Prods, gx.P{Head: ns[i]})
+		}
+	}
+	return g
+}
+
+// Sentence of a ChainGrammar / KeywordGrammar: a short one.
+func shortSentence(g gx.G) string {
+	for w := range g.LangK(2) {
+		if w != "" {
+			return w
+		}
+	}
+	return ""
+}
+
+// BucketGrammars: small grammars all of whose symbols (or non-terminals, or terminals) start at one slot of the 31-slot
+// (17–23 of them) or the 67-slot (35–40) table.  k numbers the variant.
+func BucketGrammars(k int) (gx.G, string) {
+	kinds := []string{"symbol", "nonterminal", "terminal"}
+	kind := kinds[k%3]
+	m, total := 31, 17+(k/3)%7
+	if (k/21)%4 == 3 {
+		m, total = 67, 35+(k/3)%6
+	}
+	var nNT, nT int
+	switch kind {
+	case "symbol":
+		nNT = 2 + (k/3)%(total-3)
+		nT = total - nNT
+	case "nonterminal":
+		nNT, nT = total, 2
+	default:
+		nNT, nT = 2, total
+	}
+	ns, ts := SameBucketNames(kind, m, nNT, nT)
+	var g gx.G
+	if (k/3)%2 == 0 || nT < 3 {
+		g = ChainGrammar(ns, ts)
+	} else {
+		g = KeywordGrammar(ns, ts)
+	}
+	return g, fmt.Sprintf("bucket=%s slots=%d nts=%d ts=%d", kind, m, nNT, nT)
+}
+
+// BucketQueries: every analysis once, FIRST of every symbol, a parse.
+func BucketQueries(g gx.G) []string {
+	qs := []string{"nullable"}
+	for _, x := range append(append([]string{}, g.NonTerms...), g.Terms...) {
+		qs = append(qs, "first "+x)
+	}
+	for _, n := range g.NonTerms {
+		qs = append(qs, "follow "+n)
+	}
+	qs = append(qs, "ll1", "table", strings.TrimRight("parse "+shortSentence(g), " "), "parse "+g.Terms[0]+" "+g.Terms[0]+" "+g.Terms[0], "unchanged")
+	return qs
+}
+
+// ---------------------------------------------------------------- exactly one LL(1) violation, at every number of alternatives
+
+// LL1Kinds: the kinds of violation OneViolation makes (3: none, the control).
+var LL1Kinds = []string{"first-first", "first-follow-through-eps", "first-follow-through-nullable-body", "none"}
+
+// OneViolation: S -> A x, and A with m alternatives A -> t_i (distinct terminals), among them exactly ONE violation of the
+// LL(1) conditions of the given kind, the offending alternative being the one with the terminal at position pos of the
+// sorted terminals (0 early, 1 middle, 2 late; cmpProduction sorts bodies with more non-terminals first, then more
+// terminals, then by their rendering, the empty body last):
+//
+//	first-first                         A -> t_p and A -> t_p z
+//	first-follow-through-eps            A -> ε, and x = t_p: FIRST(A -> t_p) meets FOLLOW(A)
+//	first-follow-through-nullable-body  A -> B with B -> ε (the nullable alternative sorts FIRST), and x = t_p
+//	none                                A -> ε and x = z: LL(1)
+func OneViolation(kind, m, pos int) gx.G {
+	plain := m - 1 // m alternatives in all: the plain ones and the extra one
+	if plain < 1 {
+		plain = 1
+	}
+	ts := numbered("t", plain)
+	p := []int{0, plain / 2, plain - 1}[pos%3]
+	g := gx.G{Terms: append(append([]string{}, ts...), "z"), NonTerms: []string{"S", "A"}, Start: "S"}
+	x := "z"
+	for _, t := range ts {
+		g.Prods = append(g.Prods, gx.P{Head: "A", Body: []string{t}})
+	}
+	switch kind % len(LL1Kinds) {
+	case 0:
+		g.Prods = append(g.Prods, gx.P{Head: "A", Body: []string{ts[p], "z"}})
+	case 1:
+		g.Prods = append(g.Prods, gx.P{Head: "A"})
+		x = ts[p]
+	case 2:
+		g.NonTerms = append(g.NonTerms, "B")
+		g.Prods = append(g.Prods, gx.P{Head: "A", Body: []string{"B"}}, gx.P{Head: "B"})
+		x = ts[p]
+	case 3:
+		g.Prods = append(g.Prods, gx.P{Head: "A"})
+	}
+	g.Prods = append([]gx.P{{Head: "S", Body: []string{"A", x}}}, g.Prods...)
+	return g
+}
+
 func descLine(kind string, p gx.P) string {
 	return strings.TrimRight(kind+" "+p.Head+" : "+strings.Join(p.Body, " "), " ")
 }
@@ -3485,6 +3718,43 @@ func Main(run *hx.Run) {
 				c := hx.Case{Header: fmt.Sprintf("comp=analysis mix=sweep dim=%s size=%d shuffle=%d", dim, n, r.Intn(1<<30)), Ops: append(g.Lines(), qs...)}
 				run.Do("analysis", c, Exec)
 			}
+		}
+	}
+	// exactly one LL(1) violation (or none) in a head with m alternatives, for EVERY m from 2 to 40 and at the sweep sizes,
+	// each kind with the offending alternative early / in the middle / late in the sort order: IsLL1's verdict against the
+	// table's conflicts and the oracle
+	{
+		r := run.R.Fork("one-violation")
+		ms := []int{}
+		for m := 2; m <= 40; m++ {
+			ms = append(ms, m)
+		}
+		ms = append(ms, 63, 64, 65, 66, 130, 257)
+		for _, m := range ms {
+			for kind := range LL1Kinds {
+				for pos := 0; pos < 3; pos++ {
+					if kind == 3 && pos > 0 {
+						continue
+					}
+					g := OneViolation(kind, m, pos)
+					ops := append(g.Lines(), "ll1", "table", "first A", "follow A", "cell A "+g.Terms[0], "cell A "+g.Terms[len(g.Terms)-2], "unchanged")
+					c := hx.Case{Header: fmt.Sprintf("comp=analysis mix=one-violation kind=%s alternatives=%d pos=%d shuffle=%d", LL1Kinds[kind], m, pos, r.Intn(1<<30)), Ops: ops}
+					run.Do("analysis", c, Exec)
+				}
+			}
+		}
+	}
+	// small grammars whose symbols share ONE probe path of the library's 31-slot (67-slot) hash tables
+	{
+		r := run.R.Fork("same-bucket")
+		n := 42
+		if run.Huge() {
+			n = 84
+		}
+		for k := 0; k < n; k++ {
+			g, what := BucketGrammars(k)
+			c := hx.Case{Header: fmt.Sprintf("comp=analysis mix=same-bucket %s shuffle=%d", what, r.Intn(1<<30)), Ops: append(g.Lines(), BucketQueries(g)...)}
+			run.Do("analysis", c, Exec)
 		}
 	}
 	// the caller's slice used for one string after the other (kept last: see the fix of the memo table's key)
